@@ -83,7 +83,8 @@ def run(F, R, tier):
                     bo |= B.origins(B.blocks[o[2]]["term"]["args"][0])
                 else:
                     bo.add(o)
-            okb = bo and all(o[0] == "call" and q.ends(o[1], "to_bytes") for o in bo)
+            from rules.c15 import is_whole_body
+            okb = is_whole_body(B, F, bo)
             ok = okh and okb and t["dest"]["l"] is not None
             detail = "convert_request = from_parts(original head, Full::new(collected body))"
             if not ok:
@@ -104,7 +105,8 @@ def run(F, R, tier):
                     bo |= B.origins(B.blocks[o[2]]["term"]["args"][0])
                 else:
                     bo.add(o)
-            ok = okh and bo and all(o[0] == "call" and q.ends(o[1], "to_bytes") for o in bo)
+            from rules.c15 import is_whole_body
+            ok = okh and is_whole_body(B, F, bo)
         R.check(ok, "C14.R1", "C14.R1:%s:rebuild" % HRS, "-", "signing route = from_parts(original head, Full::new(collected body))")
 
     # ------------------------------------------------------------------ R2
